@@ -118,7 +118,7 @@ func (f *Formatter) Format(vcl *ast.VCL) io.Reader {
 	buf.WriteString("\n")
 
 	// Never start the output with empty lines: formatting the output again would drop them
-	return bytes.NewReader(bytes.TrimLeft(buf.Bytes(), "\n"))
+	return bytes.NewReader(restoreLineFeeds(bytes.TrimLeft(buf.Bytes(), "\n")))
 }
 
 // Calculate and crate ident strings from config (shorthand, without passing config)
